@@ -321,7 +321,8 @@ class GcodeParser(CommonMixin):  # pylint: disable=too-many-instance-attributes
 
         if (self._checksum is not None):
             # Verify the checksum matches our computation
-            command = self.leadingWhitespace + self.text
+            # Leading whitespace is not part of the checksum (Marlin skips it, and so does stringify)
+            command = self.text
             computedChecksum = self.computeChecksum(command)
 
             if (self._checksum != computedChecksum):
